@@ -3,13 +3,13 @@
 import json, os
 root = os.path.dirname(os.path.dirname(os.path.abspath(__file__)))
 props = [json.loads(l) for l in open(os.path.join(root, 'properties.jsonl'))]
-TECH = "bounded symbolic execution of the real Go code (go/ssa -> SMT-LIB2 bit-vectors, z3): assertions decided by the solver for all symbolic inputs within stated bounds; counterexamples replayed natively"
+TECH = "bounded symbolic execution of the real Go code (go/ssa -> SMT-LIB2 bit-vectors, z3): assertions decided by the solver for all symbolic inputs within stated bounds (threaded harnesses: scheduler decisions are explored up to a stated delay / preemption bound); counterexamples replayed natively"
 claimed = {
  "C02": dict(text="Bounded symbolic verification: every path of the real parser/dispatch/reply pipeline for one generated member (all key subsets, symbolic value kinds, ids, codes) is decided by the solver against a spec-derived reference classifier; bounded by member/key-class bounds listed in the evidence.", ref="4 (C02)",
              note="encoding/json is a contract stub over opaque tokens; engine (gosym) correctness; bounds on batch size and map orders; see evidence.assumptions"),
  "C03": dict(text="Bounded symbolic run of the real server goroutines with the scheduler replaced by solver-visible decisions (delay-bounded), data (member kinds, gate order) symbolic; ordering oracle on a logical clock at quiescence.", ref="4 (C03), 2.7",
-             note="sync/chan/context intrinsics; delay bound 2 (thorough 3), no preemption inside critical sections; <= 3 records"),
- "C07": dict(text="Inductive single-step verification over the reservation table from an arbitrary invariant-satisfying state with symbolic ids: covers call histories of any length; data bounds only (<= 2 in flight, batch <= 2).", ref="4 (C07), 2.6",
+             note="sync/chan/context intrinsics; delay bound 2 (thorough 3), no preemption inside critical sections; 2 records in flight; the stop-with-queued-notifications scenario of the C08 harness is part of this check"),
+ "C07": dict(text="Inductive single-step verification over the reservation table from an arbitrary invariant-satisfying state with symbolic ids: covers call histories of any length; data bounds only (<= 2 in flight (thorough 3), batch <= 2); the reservation is also asserted while the batch is in flight.", ref="4 (C07), 2.6",
              note="invariant 'reserved ids == in-flight calls' is the induction hypothesis; handlers atomic; json stub; context intrinsics"),
  "C12": dict(text="Bounded symbolic verification of header-framing length handling: Content-Length is a full 64-bit symbolic int, the runtime's makeslice limit is an explicit obligation; stream-level harnesses bound stream length.", ref="4 (C12), App. B",
              note="bufio.ReadString/io.ReadFull/io.CopyN redirected to line scripts in the size harness; allocations > 65536 elements pruned (stated)"),
@@ -21,18 +21,18 @@ claimed = {
 STEP = "inductive single-step verification from an arbitrary invariant-satisfying state (symbolic ids/counters): histories of any length; data bounds only"
 claimed.update({
  "C15": dict(text="Bounded symbolic verification of handler.Check / FuncInfo.Wrap executed from source over an engine model of package reflect (go/types-backed; Value.Call runs the real function): accepted/rejected signature shapes, exactly-once call with the decoded argument or InvalidParams without a call, strictness, array-to-field mapping, pass-through of results; plus UnmarshalParams and arrayStub.translate.", ref="9.2 (C15)", note="function shapes are enumerated (9+8), params symbolic; reflect is modelled (gosym/reflect.go); json stub"),
- "C16": dict(text="Bounded symbolic verification of Positional (StructOf/FuncOf/MakeFunc through the reflect model, arity 2, symbolic params in array and object form), Args (decode/encode) and Obj (decode, every map order) at JSON-token level.", ref="9.2 (C16)", note="arity 2; reflect modelled; json stub"),
- "C18": dict(text="Bounded symbolic run of the real Bridge.ServeHTTP over a real server.Local (threads) with symbolic members/ids; response body parsed back and matched to the request's calls; two concurrent callers with identical ids.", ref="4 (C18)", note="<= 2 members (thorough 3); HTTP stack replaced by recorders; delay bound 2"),
+ "C16": dict(text="Bounded symbolic verification of Positional (StructOf/FuncOf/MakeFunc through the reflect model, arity 2, symbolic params in array and object form), Args (decode/encode) and Obj (decode, every map order) at JSON-token level.", ref="9.2 (C16)", note="arity 2; reflect modelled; json stub; one harness runs two concurrent invocations with preemption bound 1"),
+ "C18": dict(text="Bounded symbolic run of the real Bridge.ServeHTTP over a real server.Local (threads) with symbolic members/ids; response body parsed back and matched to the request's calls; two concurrent callers with identical ids.", ref="4 (C18)", note="<= 2 members (thorough 3); HTTP stack replaced by recorders; delay bound 2; thorough tier of the concurrent harness with preemption bound 1"),
  "C19": dict(text="Bounded symbolic verification of ParseQuery/ParseBasic value typing, totality and marshalability; the Getter's status mapping over a real Local; and a real Client over the real jhttp.Channel against a real Bridge through an in-process HTTPClient (results, body closing, no thread left after Close).", ref="4 (C19), 9.2", note="strconv/base64 via representative strings; ParseForm and http.NewRequest stubs; real net/http transport outside"),
- "C20": dict(text="Bounded symbolic run of the real Loop with real servers as engine threads over a scripted accepter; service/Finish accounting and return value asserted on every explored schedule.", ref="4 (C20)", note="<= 2 connections; delay bound 2; NetAccepter outside"),
- "C11": dict(text="Bounded symbolic round trip through the real Send, the real bufio.Reader (from source) and the real Recv for Split and Header framings under symbolic fragmentation; record bytes symbolic.", ref="4 (C11)", note="records <= 3 bytes (+ one long), 16-byte bufio buffer, listed chunk policies; RawJSON/Direct outside"),
- "C01": dict(text="Bounded symbolic run of the real dispatcher closure (handler goroutines as engine threads) with symbolic handler outcomes and ids; reply parsed back and compared per call.", ref="4 (C01)", note="batch <= 2 (thorough 3); json stub; delay-bounded scheduler"),
- "C04": dict(text=STEP + " - client pending set: matching by id text, id freshness, Batch order.", ref="4 (C04), 2.6", note="<= 2 pending in pre-state, Batch <= 3; FormatInt as injective opaque token; json stub"),
- "C05": dict(text=STEP + " - client completion exactly once, stop semantics, hooks; plus a threaded NewClient run for Close-waits-for-callbacks.", ref="4 (C05), 2.6", note="goroutine-leak clause only for the threads of the explored runs; delay bound 2"),
- "C06": dict(text="Options arithmetic for all 64-bit values by the solver; bounded threaded run of the dispatcher with the real semaphore source for limit in {1,2}: never above the limit, all slots used while requests wait, cancelled waiter never runs.", ref="4 (C06)", note="limit <= 2 in the run; delay bound 2"),
- "C08": dict(text="Bounded symbolic run of a real started server through traffic, each stop cause, late records, WaitStatus and restart, with scheduler decisions explored up to the delay bound; any panic/deadlock/wrong status is a violation.", ref="4 (C08)", note="<= 1 call, 2 notifications, 1 malformed, 1 late record; delay bound 2 (thorough 3)"),
- "C09": dict(text=STEP + " - outstanding callbacks: push gate, closed-connection check, reply matching, late replies dropped, context end, stop.", ref="4 (C09), 2.6", note="<= 2 outstanding callbacks, batch <= 2"),
- "C10": dict(text="Channel-discipline assertions (lock held by the calling thread at Send/Close, single Recv, single Close, record shape) evaluated inside the engine on every path and schedule of the threaded and step harnesses.", ref="4 (C10)", note="workloads of the listed harnesses; delay bound"),
+ "C20": dict(text="Bounded symbolic run of the real Loop with real servers as engine threads over a scripted accepter; service/Finish accounting and return value asserted on every explored schedule.", ref="4 (C20)", note="<= 2 connections (thorough 3); delay bound 2 (thorough 3); NetAccepter run over a scripted in-memory net.Listener (real sockets outside)"),
+ "C11": dict(text="Bounded symbolic round trip through the real Send, the real bufio.Reader (from source) and the real Recv for Split (symbolic / several split bytes) and Header framings under symbolic fragmentation, and through the Direct framing (engine channels); record bytes symbolic.", ref="4 (C11)", note="records <= 3 bytes (+ one long), 16-byte bufio buffer, listed chunk policies; RawJSON outside"),
+ "C01": dict(text="Bounded symbolic run of the real dispatcher closure (handler goroutines as engine threads) with symbolic handler outcomes and ids; reply parsed back and compared per call.", ref="4 (C01)", note="batch <= 3; json stub; delay-bounded scheduler; the started-server harness of C03 and the filter step of C09 are part of this check"),
+ "C04": dict(text=STEP + " - client pending set: matching by id text, id freshness, Batch order.", ref="4 (C04), 2.6", note="<= 2 pending in pre-state, Batch <= 3 (thorough 4); FormatInt as injective opaque token; json stub; plus two threaded NewClient runs over the public API"),
+ "C05": dict(text=STEP + " - client completion exactly once, stop semantics, hooks; plus threaded NewClient runs (Close waits for callbacks; a Batch answered in separate records).", ref="4 (C05), 2.6", note="goroutine-leak clause only for the threads of the explored runs; delay bound 2; thorough with preemption bound 1 on the threaded runs"),
+ "C06": dict(text="Options arithmetic for all 64-bit values by the solver; bounded threaded run of the dispatcher with the real semaphore source for limit in {1,2}: never above the limit, all slots used while requests wait, cancelled waiter never runs; a handler waiting in Callback keeps its slot; the rpc.serverInfo built-in waits for a slot.", ref="4 (C06)", note="limit <= 2 in the run (thorough 3); delay bound 2; thorough with preemption bound 1"),
+ "C08": dict(text="Bounded symbolic run of a real started server through traffic, each stop cause, late records, WaitStatus and restart, with scheduler decisions explored up to the delay bound; any panic/deadlock/wrong status is a violation.", ref="4 (C08)", note="<= 1 call, <= 4 notifications, one two-member batch, 1 malformed, 1 late record; delay bound 2 (thorough 3)"),
+ "C09": dict(text=STEP + " - outstanding callbacks: push gate, closed-connection check, reply matching, late replies dropped, context end, stop.", ref="4 (C09), 2.6", note="<= 2 outstanding callbacks (thorough 4), batch <= 2 (thorough 4); plus a threaded run with a callback awaited from a notification handler"),
+ "C10": dict(text="Channel-discipline assertions (lock held by the calling thread at Send/Close, single Recv, single Close, record shape) evaluated inside the engine on every path and schedule of the threaded and step harnesses.", ref="4 (C10)", note="workloads of the listed harnesses; delay bound 2; the client harness in the thorough tier with preemption bound 1"),
  "C13": dict(text="Bounded symbolic round trip encoder -> parser over opaque JSON tokens (all values of each kind), producers executed on their real paths, ParseRequests vs reference classification.", ref="4 (C13)", note="encoding/json stub is the trusted base for what Marshal emits; name length bounds"),
 })
 checks = []
@@ -52,7 +52,7 @@ for p in props:
         "technique": TECH,
     })
 na_reason = {}
-not_app = [{"property_id": p['id'], "reason": na_reason.get(p['id'], "check not built yet (work in progress; see DESIGN.md section 8 build order)")} for p in props if p['id'] not in claimed]
+not_app = [{"property_id": p['id'], "reason": na_reason.get(p['id'], "no check registered")} for p in props if p['id'] not in claimed]
 m = {
  "version": 1,
  "setup_cmd": "./setup.sh",
